@@ -301,6 +301,67 @@ impl<'a> System<'a> for HSysD {
     }
 }
 
+/// Accessor type with a *wide* default (it claims to write every standard slot): `try_new()` is `Some`. A system is free to
+/// override `System::accessor()` all the same; everything must then go by what `accessor()` says.
+pub struct HAccW(pub HAcc);
+
+impl Accessor for HAccW {
+    fn try_new() -> Option<Self> {
+        Some(HAccW(HAcc { uid: 0, rslots: vec![], wslots: Slot::all().collect(), ctx: dummy_ctx() }))
+    }
+    fn reads(&self) -> Vec<ResourceId> {
+        self.0.reads()
+    }
+    fn writes(&self) -> Vec<ResourceId> {
+        self.0.writes()
+    }
+}
+
+pub struct HDataW<'a>(HData<'a>);
+
+impl<'a> DynamicSystemData<'a> for HDataW<'a> {
+    type Accessor = HAccW;
+    fn setup(acc: &HAccW, world: &mut World) {
+        HData::setup(&acc.0, world)
+    }
+    fn fetch(acc: &HAccW, world: &'a World) -> Self {
+        HDataW(HData::fetch(&acc.0, world))
+    }
+}
+
+pub struct HSysW {
+    inner: HSys,
+    accd: HAccW,
+}
+
+impl HSysW {
+    pub fn new(sp: &SysSpec, ctx: &Arc<Ctx>) -> HSysW {
+        HSysW {
+            inner: HSys::new(sp, ctx),
+            accd: HAccW(HAcc { uid: sp.uid, rslots: sp.reads.clone(), wslots: sp.writes.clone(), ctx: ctx.clone() }),
+        }
+    }
+}
+
+impl<'a> System<'a> for HSysW {
+    type SystemData = HDataW<'a>;
+    fn run(&mut self, data: HDataW<'a>) {
+        self.inner.run(data.0)
+    }
+    fn running_time(&self) -> RunningTime {
+        self.inner.running_time()
+    }
+    fn accessor<'b>(&'b self) -> AccessorCow<'a, 'b, Self> {
+        AccessorCow::Ref(&self.accd)
+    }
+    fn setup(&mut self, world: &mut World) {
+        System::setup(&mut self.inner, world)
+    }
+    fn dispose(self, world: &mut World) {
+        System::dispose(self.inner, world)
+    }
+}
+
 // ------------------------------------------------------------------------------------------------
 // Static systems: a menu of real library `SystemData` types
 // ------------------------------------------------------------------------------------------------
@@ -1005,7 +1066,13 @@ pub fn register(b: &mut DispatcherBuilder<'static, 'static>, it: &Item, ctx: &Ar
         Item::Sys(sp) => {
             let deps: Vec<&str> = sp.deps.iter().map(|d| d.as_str()).collect();
             match sp.kind {
-                Kind::Dyn => b.add(HSys::new(sp, ctx), &sp.name, &deps),
+                // three flavours of a dynamic system: the accessor type has no default / an empty
+                // default / a wide default - `accessor()` of the instance is what counts
+                Kind::Dyn => match sp.uid % 7 {
+                    3 => b.add(HSysD::new(sp, ctx), &sp.name, &deps),
+                    5 => b.add(HSysW::new(sp, ctx), &sp.name, &deps),
+                    _ => b.add(HSys::new(sp, ctx), &sp.name, &deps),
+                },
                 Kind::Static(m) => {
                     with_menu!(m, M => b.add(SSys::<M>::new(sp, ctx), &sp.name, &deps))
                 }
